@@ -284,6 +284,16 @@ def run(case):
                 return c.result(dict(case=case["key"], skipped="no jax implementation of this model"))
             um = CJ.Hyperelastic(getattr(CJ.models.hyperelastic, n), **kw)
             tol = max(tol, JAX_SHIFT.get(n, 0) * 0.5)
+        # instance history: another instance of the same model with other constants is evaluated first, at the same shapes
+        # (nothing may be remembered across instances)
+        try:
+            kw2 = {k: (list(1.7 * np.asarray(v)) if isinstance(v, (list, tuple)) else 1.7 * v) if k[0] in "mCG" else v for k, v in kw.items()}
+            decoy = fem.Hyperelastic(getattr(C, n), **kw2) if case["backend"] == "tt" else CJ.Hyperelastic(getattr(CJ.models.hyperelastic, n), **kw2)
+            tangent_at_I(decoy)
+            c.trans += 2
+            c.outcomes.add("decoy-instance-evaluated-first")
+        except Exception as ex:  # noqa
+            c.notes.append(f"decoy instance not evaluated: {ex!r}"[:120])
         AI, PI = tangent_at_I(um)
         c.trans += 2
         c.cmp("tangent", f"tangent at F = I vs lambda0 1x1 + mu0 I_sym with the documented mu0 = {mu0:.6g}, K0 = {K0}", AI, iso_tangent(mu0, K0), tol)
@@ -293,10 +303,11 @@ def run(case):
         if n == "NeoHooke":
             vs = [(fem.NeoHooke(mu=1.3, bulk=4.1), 1.3, 4.1), (fem.NeoHooke(mu=0.7), 0.7, None)]
         elif n == "NeoHookeCompressible":
-            vs = [(fem.NeoHookeCompressible(mu=1.3, lmbda=2.2), 1.3, 2.2 + 2 * 1.3 / 3)]
+            vs = [(fem.NeoHookeCompressible(mu=1.3, lmbda=2.2), 1.3, 2.2 + 2 * 1.3 / 3), (fem.NeoHookeCompressible(mu=0.4, lmbda=5.0), 0.4, 5.0 + 2 * 0.4 / 3)]
         else:
             lam, mu = C.lame_converter(2.0, 0.3)
-            vs = [(fem.LinearElasticLargeStrain(E=2.0, nu=0.3), mu, lam + 2 * mu / 3)]
+            lam2, mu2 = C.lame_converter(7.0, 0.1)
+            vs = [(fem.LinearElasticLargeStrain(E=2.0, nu=0.3), mu, lam + 2 * mu / 3), (fem.LinearElasticLargeStrain(E=7.0, nu=0.1), mu2, lam2 + 2 * mu2 / 3)]
         for k, (um, mu0, K0) in enumerate(vs):
             AI, PI = tangent_at_I(um)
             c.trans += 2
